@@ -176,6 +176,49 @@ def meetOver {κ : Type} [DecidableEq κ] (ms : List (AMap κ)) : AMap κ :=
   | [] => []
   | m :: rest => rest.foldl AMap.meet m
 
+/-- `out[n]` for registers: kills, generated value, entry seeds, then the rules in the order of
+    the code. `cn.memOut` is the node's memory-out of the *previous* sweep (read by the CSR pull). -/
+def nodeRegOut (cn : CNode) (inReg : AMap Reg) (inMem : AMap MemLoc) : AMap Reg :=
+  let n := cn.node
+  let out0 := (RegSet.toList n.killReg).foldl AMap.erase inReg
+  let out1 := if n.callsTo.isSome then (RegSet.toList returnAddrSet).foldl AMap.erase out0 else out0
+  -- an environment call overwrites its result registers (signature from the *new* reg-in)
+  let cnIn : CNode := { cn with regIn := inReg }
+  let out1 := match ecallSignature cnIn with
+    | some (_, rets) => (RegSet.toList rets).foldl AMap.erase out1
+    | none =>
+      -- unknown call number: every environment call returns in a0/a1
+      if n.isEcall && (knownEcall cnIn).isNone then [10, 11].foldl AMap.erase out1 else out1
+  let out2 := match n.genRegValue with
+    | some (r, v) => AMap.insert out1 r v
+    | none => out1
+  let out3 := if n.isHandlerFunctionEntry then AMap.extend out2 (originals allWritableSet) else out2
+  let out4 := if n.isFunctionEntry then AMap.extend out3 (originals calleeSavedSet) else out3
+  let out5 := if n.isProgramEntry then AMap.extend out4 (originals spRaSet) else out4
+  let r1 := ruleExpandAddressForLoad n out5 inReg
+  let r2 := ruleValueFromStack n r1 inMem
+  let r3 := rulePullValueFromCsrMemory n r2 cn.memOut        -- reads the *old* memory_values_out
+  let r4 := zeroConsts r3 inReg
+  -- x0 cannot be written: no rule's result for a destination x0 is kept
+  AMap.erase (rulePerformMathOps n r4 inReg) 0
+
+/-- `out_memory[n]` -/
+def nodeMemOut (cn : CNode) (inReg : AMap Reg) (inMem : AMap MemLoc) (regOut : AMap Reg) : AMap MemLoc :=
+  let n := cn.node
+  let cnIn : CNode := { cn with regIn := inReg }
+  let mem0 : AMap MemLoc :=
+    if n.isAnyEntry then []
+    else match n.genMemoryValue with
+      | some (.stack offset, v) =>
+        match stackOffset inReg with
+        | some cur => AMap.insert inMem (.stack (cur + offset)) v
+        | none => inMem
+      | some (loc, v) => AMap.insert inMem loc v
+      | none => inMem
+  let m4 := zeroConsts mem0 inMem
+  let m5 := rulePushValueToCsrMemory n m4 regOut
+  ruleForgetOverwritten cnIn (ruleKnownValuesToStack m5 inReg)
+
 /-- One node of one sweep. Returns the new graph, `changed`. -/
 def availNode (g : Cfg) (visited : List Nat) (i : Nat) : Cfg × Bool × Bool :=
   let cn := g.get i
@@ -186,43 +229,8 @@ def availNode (g : Cfg) (visited : List Nat) (i : Nat) : Cfg × Bool × Bool :=
     let inMem := meetOver (vprevs.map fun p => (g.get p).memOut)
     let c1 := !(AMap.sameAs cn.regIn inReg)
     let c2 := !(AMap.sameAs cn.memIn inMem)
-    let n := cn.node
-    -- out[n]
-    let out0 := (RegSet.toList n.killReg).foldl AMap.erase inReg
-    let out1 := if n.callsTo.isSome then (RegSet.toList returnAddrSet).foldl AMap.erase out0 else out0
-    -- an environment call overwrites its result registers (signature from the *new* reg-in)
-    let cnIn : CNode := { cn with regIn := inReg }
-    let out1 := match ecallSignature cnIn with
-      | some (_, rets) => (RegSet.toList rets).foldl AMap.erase out1
-      | none =>
-        -- unknown call number: every environment call returns in a0/a1
-        if n.isEcall && (knownEcall cnIn).isNone then [10, 11].foldl AMap.erase out1 else out1
-    let out2 := match n.genRegValue with
-      | some (r, v) => AMap.insert out1 r v
-      | none => out1
-    let out3 := if n.isHandlerFunctionEntry then AMap.extend out2 (originals allWritableSet) else out2
-    let out4 := if n.isFunctionEntry then AMap.extend out3 (originals calleeSavedSet) else out3
-    let out5 := if n.isProgramEntry then AMap.extend out4 (originals spRaSet) else out4
-    -- out_memory[n]
-    let mem0 : AMap MemLoc :=
-      if n.isAnyEntry then []
-      else match n.genMemoryValue with
-        | some (.stack offset, v) =>
-          match stackOffset inReg with
-          | some cur => AMap.insert inMem (.stack (cur + offset)) v
-          | none => inMem
-        | some (loc, v) => AMap.insert inMem loc v
-        | none => inMem
-    -- rules, in the order of the code
-    let r1 := ruleExpandAddressForLoad n out5 inReg
-    let r2 := ruleValueFromStack n r1 inMem
-    let r3 := rulePullValueFromCsrMemory n r2 cn.memOut        -- reads the *old* memory_values_out
-    let r4 := zeroConsts r3 inReg
-    let m4 := zeroConsts mem0 inMem
-    -- x0 cannot be written: no rule's result for a destination x0 is kept
-    let r5 := AMap.erase (rulePerformMathOps n r4 inReg) 0
-    let m5 := rulePushValueToCsrMemory n m4 r5
-    let m6 := ruleForgetOverwritten cnIn (ruleKnownValuesToStack m5 inReg)
+    let r5 := nodeRegOut cn inReg inMem
+    let m6 := nodeMemOut cn inReg inMem r5
     let c3 := !(AMap.sameAs cn.regOut r5)
     let c4 := !(AMap.sameAs cn.memOut m6)
     let g' := g.modify i fun m => { m with regIn := inReg, memIn := inMem, regOut := r5, memOut := m6 }
